@@ -825,8 +825,8 @@ func runC18(e *Env) {
 	R.Rule = "one case = one value of a record type (or the header) encoded by the repository's writer into an in-memory stream and decoded by " +
 		"readControlMessage/readControlHeader, or one sequence of 1-50 records; distinct by (record type, encoded bytes) resp. by the bytes of the whole sequence; " +
 		"a value counts only if the writer accepted it (writer rejections such as empty or over-long paths are counted separately, not evaluated)"
-	nValues := e.Pick(5000, 500000)
-	nSeq := e.Pick(200, 20000)
+	nValues := e.Pick(40000, 500000)
+	nSeq := e.Pick(2000, 20000)
 	base := e.Seed ^ vk.HashStr("c18"+e.Tier)
 
 	st := &c18Stats{perKind: map[string]*c18KindStat{}, boundaries: map[string]int{}, nameClasses: map[string]int{}, readModes: map[string]int{},
